@@ -300,6 +300,14 @@ func (c *Ctx) havocMods(st *State, ms *modSet) {
 		c.refFact(st, v)
 		st.vars[o] = v
 	}
+	// ghosts bound or counted at program points may change in the body: unknown at the loop head (invariants say more)
+	if c.prefix == "" && c.unit.Contract != nil {
+		for _, pg := range c.unit.Contract.PointGhosts {
+			if v, ok := st.ghost[pg.Name]; ok {
+				st.ghost[pg.Name] = Val{T: c.fresh("pg_"+pg.Name, v.S), S: v.S}
+			}
+		}
+	}
 	// allocation pointer may have advanced
 	na := c.fresh("alloc", "Int")
 	st.assume("(>= " + na + " " + c.allocCur(st) + ")")
@@ -416,6 +424,33 @@ func (c *Ctx) pointClauses(s *State, point string, pos token.Pos) {
 func (c *Ctx) pointClausesX(s *State, point string, pos token.Pos, extra map[string]Val) {
 	if c.prefix != "" || c.unit.Contract == nil {
 		return
+	}
+	for _, pg := range c.unit.Contract.PointGhosts {
+		if pg.Point != point {
+			continue
+		}
+		env := c.invEnv(s, pos, extra)
+		if pg.Kind == "let" {
+			v, err := env.trVal(pg.Expr)
+			if err != nil {
+				c.abort("let %s @ %s: %v", pg.Name, point, err)
+				return
+			}
+			nm := c.fresh("pg_"+pg.Name, v.S)
+			s.assume(eq(nm, v.T))
+			v.T = nm
+			s.ghost[pg.Name] = v
+		} else {
+			t, err := env.trBool(pg.Cond)
+			if err != nil {
+				c.abort("count %s @ %s: %v", pg.Name, point, err)
+				return
+			}
+			cur := s.ghost[pg.Name]
+			nm := c.fresh("pg_"+pg.Name, "Int")
+			s.assume("(= " + nm + " (ite " + t + " (+ " + cur.T + " 1) " + cur.T + "))")
+			s.ghost[pg.Name] = Val{T: nm, S: "Int"}
+		}
 	}
 	n := 0
 	for _, pc := range c.unit.Contract.Points {
